@@ -58,8 +58,12 @@ func instreamFineSediment(upstreamMass, lateralMass, reachLocalMass, reachVolume
 	loadDownstream, loadToFloodplain, loadToChannelDeposition, floodplainDepositionFraction, channelDepositionFraction data.ND1Float64) (float64, float64) {
 
 	if bankFullFlow <= 1e-8 {
+		// All material entering the reach is transported: lateral and reach-local supply
+		lateralAndLocal := data.NewArray1DFloat64(lateralMass.Len1())
+		data.AddToFloat64Array(lateralAndLocal, lateralMass)
+		data.AddToFloat64Array(lateralAndLocal, reachLocalMass)
 		totalStoredMass = LumpedConstituentTransport(
-			upstreamMass, lateralMass, outflow, reachVolume,
+			upstreamMass, lateralAndLocal, outflow, reachVolume,
 			totalStoredMass,
 			0, 0.0, durationInSeconds,
 			loadDownstream,nil)
